@@ -52,6 +52,17 @@ def _offsets(coll):
     return np.asarray(coll.get_offsets())
 
 
+def _line_colls(ax):
+    """the line collections of an axis (segments), whatever else was added before or after them"""
+    from matplotlib.collections import LineCollection
+    return [x for x in ax.collections if isinstance(x, LineCollection)]
+
+
+def _marker_colls(ax):
+    from matplotlib.collections import PathCollection
+    return [x for x in ax.collections if isinstance(x, PathCollection)]
+
+
 def execute(job):
     import matplotlib
     matplotlib.use("Agg")
@@ -85,24 +96,24 @@ def execute(job):
                 labels = [_label(ax.get_xlabel()), _label(ax.get_ylabel())] + ([_label(ax.get_zlabel())] if c["mode"] == "xyz" else [])
                 o["labels"] = labels
                 o["line"] = _ints(_line(ax), u)
-                sc = [x for x in ax.collections]
+                sc = _marker_colls(ax)
                 o["markers"] = [_ints(_offsets(x), u)[0] for x in sc[:2]] if len(sc) >= 2 else []
                 fig2 = plt.figure(figsize=(2, 2))
                 ax2 = plot.prepare_axis(fig2, mode)
                 plot.traj_colormap(ax2, tr, np.arange(tr.num_poses - 1, dtype=float), mode, 0.0, 5.0, fig=fig2)
-                seg = _segments(ax2.collections[0])
+                seg = _segments(_line_colls(ax2)[0])
                 o["segments"] = [[_ints([s[0]], u)[0], _ints([s[1]], u)[0]] for s in seg]
                 fig3 = plt.figure(figsize=(2, 2))
                 ax3 = plot.prepare_axis(fig3, mode)
                 plot.draw_correspondence_edges(ax3, tr, other, mode)
-                seg = _segments(ax3.collections[0])
+                seg = _segments(_line_colls(ax3)[0])
                 o["edges"] = [[_ints([s[0]], u)[0], _ints([s[1]], uo)[0]] for s in seg]
                 fig4 = plt.figure(figsize=(2, 2))
                 ax4 = plot.prepare_axis(fig4, mode)
                 plot.draw_coordinate_axes(ax4, tr, mode, marker_scale=0.5 * c["scale2"] * u)
                 o["frames"] = []
-                if ax4.collections:
-                    seg = _segments(ax4.collections[0])
+                if _line_colls(ax4):
+                    seg = _segments(_line_colls(ax4)[0])
                     o["frames"] = [[_ints([s[0]], u, 2)[0], _ints([s[1]], u, 2)[0]] for s in seg]
             elif c["fam"] == "series":
                 clock = geom.CLOCKS[(n + seed) % len(geom.CLOCKS)]
